@@ -755,6 +755,11 @@ class Ghost:
             self.I.call_depth, self.I.stack = depth, stack
             return Outcome("cut", value=c.loopname)
 
+    def vc_install_loop(self, args, kwargs, node):
+        """vc.install_loop(loop): asyncio.get_event_loop() etc. of the verified code reach it"""
+        self.loop = args[0]
+        return args[0]
+
     def vc_run(self, args, kwargs, node):
         """vc.run(coroutine): drive a coroutine to completion (native: on a fresh event loop)"""
         return self.await_(args[0], node)
